@@ -21,7 +21,7 @@ RULE = ("frames of 56/112 bits (uniform, all-0/all-1, sparse, dense, the suite's
         "linearity; direct error injection (all weight<=3 patterns, all bursts <=12 at every offset, sampled weight 4-5 "
         "and bursts 13-24) on valid frames; syndrome closure: no 1..5 single-bit syndromes of the implementation XOR to 0. "
         "non-trivial = frame not all-zero (and, for error cases, the error touches the data field); distinct by case hash"
-        ' Also: 2000 real DF17 frames (leg corpus), replacement parity fields copied from the data part, keyword and positional encode flag, four concurrent callers (leg threads), the admission test of the demodulator _check_msg as a history on one reader incl. RtlReader(debug=True) (leg admission), 140 000 / 1.3 million distinct frames in a row in one process (leg volume).')
+        ' Also: 2000 real DF17 frames (leg corpus), replacement parity fields copied from the data part, keyword and positional encode flag, four concurrent callers (leg threads), the admission test of the demodulator _check_msg as a history on one reader incl. RtlReader(debug=True) (leg admission), 140 000 / 1.3 million distinct frames in a row in one process (leg volume), the first calls of a freshly imported package made by four threads at once (leg first_use).')
 ASSUMPTIONS = ["hex strings of exactly 14 or 28 digits",
                "completeness of the weight<=5 detection claim over all frames rests on implementation linearity, which is sampled (leg linearity)"]
 
@@ -375,7 +375,22 @@ def vol_step(a, b, k):
     return None
 
 
+# ---------------------------------------------------------------- first calls of a freshly imported package, four threads at once
+def first_jobs(rng):
+    jobs = []
+    for _ in range(40):
+        n = rng.choice([56, 112])
+        v = rng.getrandbits(n)
+        m = tohex(v, n, rng.choice("UL"))
+        if rng.random() < 0.5:
+            jobs.append(("common.crc", (m,), ("ok", crc24.remainder(v, n))))
+        else:
+            jobs.append(("common.crc", (m, True), ("ok", crc24.parity(v >> 24, n - 24))))
+    return jobs
+
+
 LEGS = [
+    variants.first_use_leg(first_jobs),
     volume.leg(vol_step, 140000, 1300000, "140 000 (thorough: 1.3 million per process) distinct random frames through crc() in one process, each against the reference division"),
     Leg("admission", chk_admit, strategy=s_admit, quick=6000, thorough=200000,
         doc="RtlReader._check_msg on one reader: valid DF17 frames and corrupted copies of them (1-5 flips / bursts <= 24, also confined to the parity field), debug on and off"),
